@@ -44,7 +44,7 @@ def run_sub(args, cwd, hashseed):
     env['PYTHONPATH'] = os.path.abspath(pyh.REPO)
     env['PYTHONHASHSEED'] = str(hashseed)
     p = subprocess.run([sys.executable, '-m', 'prophyc'] + args, cwd=cwd, env=env, stdout=subprocess.PIPE,
-                       stderr=subprocess.PIPE, timeout=120)
+                       stderr=subprocess.PIPE, timeout=900)
     return p.returncode, p.stderr.decode(errors='replace')
 
 
